@@ -124,7 +124,7 @@ theorem all_schedules_stream_stream (h : Handler Req Resp) (hg : h.isGen = true)
   every_schedule_concurrent_client _ _ (helper_good .streamStream _ _ reqs)
     (by rw [← hend]; exact drained_stream_stream h hg reqs) σ hq
 
-/-! ## the guard is needed: a race of the code (D45) -/
+/-! ## the guard is needed: a race of the code (D51) -/
 
 /-- a stream-stream handler that yields one response and returns WITHOUT reading its request iterator -/
 def earlyHandler : Handler Nat Nat := ⟨true, fun _ => .yield 7 (.ret none)⟩
